@@ -1,7 +1,7 @@
-(* C17 requests: 1700..1705. *)
+(* C17 requests: 1700..1707. *)
 From Coq Require Import List ZArith QArith Bool.
 From PV Require Import lib.Sx lib.Str lib.Result.
-From PV Require Import model.SccWrap model.SccWrite spec.SpecSccw model.SccRoundTrip extract.OrCommon.
+From PV Require Import model.SccWrap model.SccWrite spec.SpecSccw model.SccRoundTrip model.SccRereadDom extract.OrCommon.
 Import ListNotations.
 Open Scope Z_scope.
 
@@ -77,6 +77,20 @@ Definition req_reread (arg : sx) : sx :=
   | None => bad
   end.
 
+(* 1706: caps -> [the case lies in the domain of the wave-7 re-read theorems (caps_ok_b)]
+   1707: caps -> how the reader model answers the writer model's document (reread_class; asked only when 1705 reports
+         that the reader model did not return captions) *)
+Definition req_reread_domain (arg : sx) : sx :=
+  match sx_listof sx_wcap arg with
+  | Some caps => SL [of_bool (caps_ok_b caps)]
+  | None => bad
+  end.
+Definition req_reread_class (arg : sx) : sx :=
+  match sx_listof sx_wcap arg with
+  | Some caps => SI (reread_class caps)
+  | None => bad
+  end.
+
 Definition dispatch (code : Z) (arg : sx) : option sx :=
   match code with
   | 1700 => Some (req_wrap arg)
@@ -85,5 +99,7 @@ Definition dispatch (code : Z) (arg : sx) : option sx :=
   | 1703 => Some (req_ok_reread arg)
   | 1704 => Some (req_size arg)
   | 1705 => Some (req_reread arg)
+  | 1706 => Some (req_reread_domain arg)
+  | 1707 => Some (req_reread_class arg)
   | _ => None
   end.
